@@ -1,4 +1,5 @@
 import Parmcb.Model.Fp
+import Parmcb.Lemmas.Fp
 import Mathlib.Data.Nat.Prime.Basic
 /-!
 # C18 — prime-field arithmetic (fp, primes, SpVecFP) matches arithmetic modulo p
@@ -12,24 +13,24 @@ open Parmcb
 out-parameters are Bézout coefficients of the ORIGINAL arguments. -/
 theorem c18_extgcd (a b : Int) (h : ¬(a = 0 ∧ b = 0)) :
     (extGcd a b).1 = (Int.gcd a b : Int) ∧
-    a * (extGcd a b).2.1 + b * (extGcd a b).2.2 = (extGcd a b).1 := by
-  sorry
+    a * (extGcd a b).2.1 + b * (extGcd a b).2.2 = (extGcd a b).1 :=
+  extGcd_spec a b h
 
 /-- **get_mult_inverse**: a value congruent to the inverse when gcd(a,p) = 1, an exception otherwise. -/
 theorem c18_inverse (a p : Int) (hp : 0 < p) :
     (Int.gcd a p = 1 → ∃ x, multInverse a p = some x ∧ (a * x) % p = 1 % p) ∧
-    (Int.gcd a p ≠ 1 → multInverse a p = none) := by
-  sorry
+    (Int.gcd a p ≠ 1 → multInverse a p = none) :=
+  multInverse_spec a p hp
 
 /-- **is_prime**, for ANY value `s` of the computed square-root bound that satisfies what the code
 itself checks (`s*s ≥ p`, PARMCB_INVARIANTS_CHECK) and stays below `p`. -/
 theorem c18_isPrimeWith (p s : Nat) (hp : 3 ≤ p) (hs1 : p ≤ s * s) (hs2 : s < p) :
-    isPrimeWith (p : Int) (s : Int) = true ↔ Nat.Prime p := by
-  sorry
+    isPrimeWith (p : Int) (s : Int) = true ↔ Nat.Prime p :=
+  isPrimeWith_spec p s hp hs1 hs2
 
 /-- **is_prime** agrees with primality for every integer ≥ 2. -/
-theorem c18_isPrime (p : Nat) (hp : 2 ≤ p) : isPrime (p : Int) = true ↔ Nat.Prime p := by
-  sorry
+theorem c18_isPrime (p : Nat) (hp : 2 ≤ p) : isPrime (p : Int) = true ↔ Nat.Prime p :=
+  isPrime_spec p hp
 
 /-! ### SpVecFP -/
 
@@ -44,29 +45,29 @@ def fpDense (v : FpVec) (i : Nat) : Int :=
   | none => 0
 
 theorem c18_add_canon (p : Int) (hp : 2 ≤ p) (a b : FpVec) (ha : FpCanon p a) (hb : FpCanon p b) :
-    FpCanon p (fpAdd p a b) := by
-  sorry
+    FpCanon p (fpAdd p a b) :=
+  add_canon p hp a b ha hb
 
 theorem c18_add_dense (p : Int) (hp : 2 ≤ p) (a b : FpVec) (ha : FpCanon p a) (hb : FpCanon p b)
-    (i : Nat) : fpDense (fpAdd p a b) i = (fpDense a i + fpDense b i) % p := by
-  sorry
+    (i : Nat) : fpDense (fpAdd p a b) i = (fpDense a i + fpDense b i) % p :=
+  add_dense p hp a b ha hb i
 
 /-- scalar multiplication by ANY integer (negative ones included) -/
 theorem c18_scale_canon (p : Int) (hp : 2 ≤ p) (c : Int) (a : FpVec) (ha : FpCanon p a) :
-    FpCanon p (fpScale p c a) := by
-  sorry
+    FpCanon p (fpScale p c a) :=
+  scale_canon p hp c a ha
 
 theorem c18_scale_dense (p : Int) (hp : 2 ≤ p) (c : Int) (a : FpVec) (ha : FpCanon p a) (i : Nat) :
-    fpDense (fpScale p c a) i = (fpDense a i * c) % p := by
-  sorry
+    fpDense (fpScale p c a) i = (fpDense a i * c) % p :=
+  scale_dense p hp c a ha i
 
 /-- dot product = the dense sum of products, reduced modulo p -/
 theorem c18_dot (p : Int) (hp : 2 ≤ p) (a b : FpVec) (ha : FpCanon p a) (hb : FpCanon p b) :
-    fpDot p a b = ((a.map (fun e => e.2 * fpDense b e.1)).sum) % p := by
-  sorry
+    fpDot p a b = ((a.map (fun e => e.2 * fpDense b e.1)).sum) % p :=
+  dot_spec p hp a b ha hb
 
 /-- **every history**: all live vectors stay canonical -/
-theorem c18_canonical (p : Int) (hp : 2 ≤ p) (ops : List FpOp) : ∀ v ∈ fpRun p ops, FpCanon p v := by
-  sorry
+theorem c18_canonical (p : Int) (hp : 2 ≤ p) (ops : List FpOp) : ∀ v ∈ fpRun p ops, FpCanon p v :=
+  fpRun_canon p hp ops
 
 end Parmcb.C18
